@@ -560,7 +560,15 @@ func (rt *runtime) convertCallParameter(v Value, t reflect.Type) (reflect.Value,
 		if o := v.object(); o != nil && o.class == classObjectName {
 			s := reflect.New(t)
 
-			for _, k := range o.propertyOrder {
+			// Enumerate rather than read propertyOrder: bridged Go structs and
+			// maps keep their members in the Go value, not in the property table.
+			var keys []string
+			o.enumerate(false, func(k string) bool {
+				keys = append(keys, k)
+				return true
+			})
+
+			for _, k := range keys {
 				idx := fieldIndexByName(t, k)
 
 				if idx == nil {
